@@ -73,7 +73,21 @@ def programs():
     emit("b1_named_field", [], sub(B1, 5, 'struct Len { x: i32 }'), True, "struct fields")
     emit("b1_tuple_field", [], sub(B1, 5, 'struct Len(i32);'), True, "struct fields")
     emit("b1_generic", [], sub(B1, 5, 'struct Len<T> {}'), True, "generic parameters")
+    emit("b1_generic_lifetime", [], sub(B1, 5, "struct Len<'a> {}"), True, "generic parameters")
+    emit("b1_generic_const", [], sub(B1, 5, 'struct Len<const N: usize> {}'), True, "generic parameters")
+    emit("b1_generic_mixed", [], sub(B1, 5, "struct Len<'a, T, const N: usize> {}"), True, "generic parameters")
+    emit("b1_generic_where", [], sub(B1, 5, 'struct Len<T> where T: Copy {}'), True, "generic parameters")
     emit("b1_enum", [], sub(B1, 5, 'enum Len {}'), True, "non-struct item")
+    emit("b1_union", [], sub(B1, 5, 'union Len { a: u8 }'), True, "non-struct item")
+    emit("b1_trait", [], sub(B1, 5, 'trait Len {}'), True, "non-struct item")
+    emit("b1_unit_struct_semicolon_fields", [], sub(B1, 5, 'struct Len(f64, f64);'), True, "struct fields")
+    emit("b1_unit_two_symbols", [], sub(B1, 3, '#[unit(Inch, "in", "inch", "doc")]'), True, "wrong kind of argument")
+    emit("b1_unit_trailing_junk", [], sub(B1, 3, '#[unit(Inch, "in", 0.0254, NONE)]'), True, "wrong kind of argument")
+    emit("b1_unit_negative_scale_expr", [], sub(B1, 3, '#[unit(Inch, "in", 1 + 1)]'), True, "wrong kind of argument")
+    emit("b1_ref_unit_with_int_scale", [], sub(B1, 1, '#[ref_unit(Meter, "m", NONE, 1)]'), True, "scale on the reference unit")
+    emit("b1_three_ref_units", [], sub(B1, 2, ['#[ref_unit(Kilometer, "km", KILO)]', '#[ref_unit(Mile, "mi")]']), True, "more than one reference unit")
+    emit("b1_unit_no_args", [], sub(B1, 3, '#[unit()]'), True, "wrong number of arguments")
+    emit("b1_unit_bare", [], sub(B1, 3, '#[unit]'), True, "wrong number of arguments")
     emit("b1_fn", [], sub(B1, 5, 'fn len() {}'), True, "non-struct item")
     # --- defects on the base without reference unit ----------------------------
     emit("b2_no_unit", [], [B2[0], B2[3]], True, "no unit")
@@ -82,6 +96,11 @@ def programs():
     emit("b2_unit_one_arg", [], sub(B2, 2, '#[unit(Celsius)]'), True, "wrong number of arguments")
     emit("b2_named_field", [], sub(B2, 3, 'struct Temp { t: f64 }'), True, "struct fields")
     emit("b2_generic", [], sub(B2, 3, 'struct Temp<T> {}'), True, "generic parameters")
+    emit("b2_generic_lifetime", [], sub(B2, 3, "struct Temp<'a> {}"), True, "generic parameters")
+    emit("b2_generic_const", [], sub(B2, 3, 'struct Temp<const N: usize> {}'), True, "generic parameters")
+    emit("b2_scale_and_prefix_without_ref_unit", [], sub(B2, 2, '#[unit(Celsius, "°C", NONE, 1.0)]'), True, "scale or prefix without reference unit")
+    emit("b2_single_scale_without_ref_unit", [], [B2[0], '#[unit(Kelvin, "K", 1.0)]', B2[3]], True, "scale without reference unit")
+    emit("b2_single_prefix_without_ref_unit", [], [B2[0], '#[unit(Kelvin, "K", NONE)]', B2[3]], True, "prefix without reference unit")
     emit("b2_enum", [], sub(B2, 3, 'enum Temp { A }'), True, "non-struct item")
     # --- derivation arguments ------------------------------------------------------
     emit("b3_arg_plus", B3_PRE, sub(B3, 0, '#[quantity(Foo + Bar)]'), True, "derivation argument")
@@ -91,6 +110,12 @@ def programs():
     emit("b3_arg_path", B3_PRE, sub(B3, 0, '#[quantity(self::Foo * Bar)]'), True, "derivation argument")
     emit("b3_two_ref_units", B3_PRE, sub(B3, 2, '#[ref_unit(Millibazoo, "mb", MILLI)]'), True, "more than one reference unit")
     emit("b3_named_field", B3_PRE, sub(B3, 3, 'struct Baz { v: f64 }'), True, "struct fields")
+    emit("b3_generic_lifetime", B3_PRE, sub(B3, 3, "struct Baz<'a> {}"), True, "generic parameters")
+    emit("b3_arg_minus", B3_PRE, sub(B3, 0, '#[quantity(Foo - Bar)]'), True, "derivation argument")
+    emit("b3_arg_parenthesised", B3_PRE, sub(B3, 0, '#[quantity((Foo) * Bar)]'), True, "derivation argument")
+    emit("b3_arg_call", B3_PRE, sub(B3, 0, '#[quantity(Foo * bar())]'), True, "derivation argument")
+    emit("b3_arg_string", B3_PRE, sub(B3, 0, '#[quantity("Foo * Bar")]'), True, "derivation argument")
+    emit("b3_arg_two_exprs", B3_PRE, sub(B3, 0, '#[quantity(Foo * Bar, Foo / Bar)]'), True, "derivation argument")
     # --- derived definitions whose operand / result lacks a reference unit --------------
     no_ref_foo = ['#[quantity]', '#[unit(Flop, "f")]', '#[unit(Kiloflop, "kf")]', 'struct Foo {}', ''] + B3_PRE[5:]
     no_ref_bar = B3_PRE[:5] + ['#[quantity]', '#[unit(Emil, "e")]', '#[unit(Milliemil, "me")]', 'struct Bar {}', '']
@@ -219,7 +244,7 @@ def run(ctx):
                 ctx.ob("ui-expected-error", "%s/%d:%d" % (name, loc[0], loc[1]), bool(hit),
                        "the repository records an error at %d:%d (%r); none is reported there; got %s" % (
                            loc[0], loc[1], msg[:60], [(e[1].splitlines()[0][:60], e[3], e[4]) for e in errs][:3]), where, nontrivial=(code is None))
-    ctx.floor("compile-fail witnesses", n_fail, 36 + 13)
+    ctx.floor("compile-fail witnesses", n_fail, 60 + 13)
     ctx.floor("compiling twins", n_pass, 4)
     ctx.extra["witness_dir"] = d
     ctx.rule_text = "one program per defect class x base definition, each type-checked on its own (cargo check --examples --keep-going); verdict = rustc error inside the offending definition; twins must compile"
